@@ -752,3 +752,25 @@ def _m51():
             else:
                 starstar = False
                 assert i""")
+
+
+@mutant('regen_saved_inputs_bootstrap_only')
+def _m52():
+    from bfg9000.builtins import regenerate as rg
+
+    def make(cls, build_inputs, env):
+        return rg.RegenerateFiles(build_inputs.bootstrap_paths, rg._outputs(build_inputs, env))
+    rg.RegenerateFiles.make = classmethod(make)
+
+
+@mutant('regen_replay_drops_find_dirs')
+def _m53():
+    from bfg9000.builtins import find as bfind
+    _patch_source(bfind, 'find_check_cache', "context.build['find_dirs'].update(seen_dirs)", 'pass')
+
+
+@mutant('toolchain_lazy_no_reload')
+def _m54():
+    from bfg9000 import build as bbuild
+    _patch_source(bbuild, 'load_toolchain', 'if regenerating:\n        env.reload()\n    else:',
+                  'if regenerating is Regenerating.true:\n        env.reload()\n    elif not regenerating:')
